@@ -866,6 +866,14 @@ class Evaluator:
             return ("dictcomp", self.expr(e.key, inner), self.expr(e.value, inner), tuple(gens))
         if isinstance(e, ast.Starred):
             return ("star", self.expr(e.value, fr))
+        if isinstance(e, ast.Slice):
+            return ("sliceobj", self.expr(e.lower, fr) if e.lower else NONE, self.expr(e.upper, fr) if e.upper else NONE,
+                    self.expr(e.step, fr) if e.step else NONE)
+        if isinstance(e, ast.NamedExpr):
+            v = self.expr(e.value, fr)
+            if isinstance(e.target, ast.Name):
+                fr.env[e.target.id] = v
+            return v
         raise Unsupported(f"expression {type(e).__name__}: {ast.unparse(e)[:60]}")
 
     def comprehension(self, e, fr: Frame) -> Term:
